@@ -10,8 +10,11 @@ import (
 
 	"github.com/grafana/cog/internal/ast"
 	"github.com/grafana/cog/internal/languages"
+	"github.com/grafana/cog/internal/veneers/builder"
+	"github.com/grafana/cog/internal/veneers/option"
 	"github.com/grafana/cog/internal/veneers/rewrite"
 	cogyaml "github.com/grafana/cog/internal/yaml"
+	"gopkg.in/yaml.v3"
 	"verif.local/simrt"
 )
 
@@ -570,6 +573,132 @@ func judgeOptionContract(rs RuleSpec, b ast.Builder, orig ast.Option, produced [
 	return "", ""
 }
 
+// ---------------------------------------------------------------- the rewriter's loop
+
+func cloneBuilders(b ast.Builders) ast.Builders {
+	var out ast.Builders
+	if err := json.Unmarshal([]byte(toJSON(toGeneric(b))), &out); err != nil {
+		return nil
+	}
+	return out
+}
+
+// referenceRewrite applies the rules in the documented order - rules common to
+// all languages first, then the language's own; within each group builder rules
+// then option rules, each list in file order; a builder left without options is
+// dismissed at the end of a group - using the real rule closures.
+func referenceRewrite(schemas ast.Schemas, builders ast.Builders, lang string, rules []RuleSpec, pkgs []string) (ast.Builders, error) {
+	for _, group := range []string{"all", lang} {
+		var brs []builder.RewriteRule
+		var ors []option.RewriteRule
+		for i, rs := range rules {
+			if rs.Lang != group {
+				continue
+			}
+			v := cogyaml.Veneers{}
+			if err := yaml.Unmarshal([]byte(VeneerFileYAML(group, pkgs[i], []RuleSpec{rs})), &v); err != nil {
+				return nil, err
+			}
+			for _, r := range v.Builders {
+				c, err := r.AsRewriteRule(v.Package)
+				if err != nil {
+					return nil, err
+				}
+				brs = append(brs, c)
+			}
+			for _, r := range v.Options {
+				c, err := r.AsRewriteRule(v.Package)
+				if err != nil {
+					return nil, err
+				}
+				ors = append(ors, c)
+			}
+		}
+		var err error
+		for _, r := range brs {
+			if builders, err = r(schemas, builders); err != nil {
+				return nil, err
+			}
+		}
+		for _, r := range ors {
+			for i, b := range builders {
+				var opts []ast.Option
+				for _, o := range b.Options {
+					if !r.Selector(b, o) {
+						opts = append(opts, o)
+						continue
+					}
+					opts = append(opts, r.Action(schemas, b, o)...)
+				}
+				builders[i].Options = opts
+			}
+		}
+		var kept ast.Builders
+		for _, b := range builders {
+			if len(b.Options) != 0 {
+				kept = append(kept, b)
+			}
+		}
+		builders = kept
+	}
+	return builders, nil
+}
+
+// c17RewriterOrder: the same rules, tagged `all` or with the language, loaded as
+// one rewriter, must give what the documented order gives.
+func c17RewriterOrder(ctx *Ctx, res *CaseResult, dir string, schemas ast.Schemas, start ast.Builders, p *c17Payload) (string, string) {
+	for i := range p.Rules {
+		if p.Rules[i].Lang == "" {
+			p.Rules[i].Lang = "all"
+		}
+	}
+	d := filepath.Join(dir, "c17order")
+	_ = os.RemoveAll(d)
+	must(os.MkdirAll(d, 0o755))
+	var files []string
+	for i, rs := range p.Rules {
+		f := filepath.Join(d, fmt.Sprintf("r%02d.yaml", i))
+		must(os.WriteFile(f, []byte(VeneerFileYAML(rs.Lang, p.Pkgs[i], []RuleSpec{rs})), 0o644))
+		files = append(files, f)
+	}
+	var got, want ast.Builders
+	CurrentDesc.Store("C17 rewriter order")
+	ex := Simulate(p.Sched, nil, pipelineMaxTicks, func() error {
+		rw, err := cogyaml.NewVeneersLoader().RewriterFrom(files, rewrite.Config{})
+		if err != nil {
+			return err
+		}
+		got, err = rw.ApplyTo(schemas, cloneBuilders(start), p.Lang)
+		return err
+	})
+	ctx.Account(ex)
+	res.Execs++
+	if ex.Panic != nil || ex.Err != nil {
+		ctx.Count("order.oneshot_failed", 1)
+		return "", ""
+	}
+	ex = Simulate(p.Sched, nil, pipelineMaxTicks, func() error {
+		var err error
+		want, err = referenceRewrite(schemas, cloneBuilders(start), p.Lang, p.Rules, p.Pkgs)
+		return err
+	})
+	ctx.Account(ex)
+	res.Execs++
+	if ex.Panic != nil || ex.Err != nil {
+		ctx.Count("order.reference_failed", 1)
+		return "", ""
+	}
+	ctx.Count("order.compared", 1)
+	if df := firstDiff(toGeneric(want), toGeneric(got), ""); df != "" {
+		var tags []string
+		for _, rs := range p.Rules {
+			tags = append(tags, rs.Lang+":"+rs.Scope+":"+rs.Kind)
+		}
+		return "rewriter-order|" + normDiffPath(df), fmt.Sprintf("rules %v loaded as one rewriter for %s differ from the documented order (common rules, then the language's; builder rules then option rules) at %s (documented vs rewriter)", tags, p.Lang, df)
+	}
+	return "", ""
+}
+
 // ---------------------------------------------------------------- history runner
 
 func c17Check(ctx *Ctx, res *CaseResult, dir string, p *c17Payload, regen *Rand) map[string]string {
@@ -605,6 +734,14 @@ func c17Check(ctx *Ctx, res *CaseResult, dir string, p *c17Payload, regen *Rand)
 	if regen != nil {
 		n = 1 + regen.Intn(6)
 	}
+	startBuilders := cloneBuilders(builders)
+	defer func() {
+		if len(out) == 0 && len(p.Rules) >= 2 && startBuilders != nil {
+			if k, wtxt := c17RewriterOrder(ctx, res, dir, schemas, startBuilders, p); k != "" {
+				out[k] = wtxt
+			}
+		}
+	}()
 	veneerDir := filepath.Join(dir, "c17veneers")
 	must(os.MkdirAll(veneerDir, 0o755))
 	for i := 0; i < n; i++ {
@@ -620,6 +757,19 @@ func c17Check(ctx *Ctx, res *CaseResult, dir string, p *c17Payload, regen *Rand)
 				rs = GenRuleSpec(regen, bvs, pkg, "builder", Pick(regen, builderRuleKinds))
 			} else {
 				rs = GenRuleSpec(regen, bvs, pkg, "option", Pick(regen, optionRuleKinds))
+			}
+			// a builder that got a factory is worth copying: "duplicate yields an
+			// identical copy (defaults and factories included)"
+			for _, bv := range bvs {
+				if bv.Factories > 0 && regen.Chance(1, 2) {
+					pkg = bv.Pkg
+					rs = RuleSpec{Scope: "builder", Kind: "duplicate", SelKind: "by_name", SelA: bv.Name, As: bv.Name + "Copy"}
+					break
+				}
+			}
+			rs.Lang = "all"
+			if regen.Chance(2, 5) {
+				rs.Lang = p.Lang
 			}
 			p.Rules = append(p.Rules, rs)
 			p.Pkgs = append(p.Pkgs, pkg)
